@@ -711,6 +711,13 @@ void Analyser::AnalyserImpl::analyseNode(const XmlNodePtr &node,
                                          const ComponentPtr &component,
                                          const AnalyserInternalEquationPtr &equation)
 {
+    // Nothing to analyse for a missing node (e.g., a piecewise element without
+    // any children, which the validator accepts).
+
+    if (node == nullptr) {
+        return;
+    }
+
     // Create the AST, if needed.
 
     if (ast == nullptr) {
